@@ -1,0 +1,52 @@
+//go:build verif
+
+package deploy
+
+import (
+	"github.com/nspcc-dev/neo-go/pkg/rpcclient/actor"
+	"github.com/nspcc-dev/neo-go/pkg/util"
+)
+
+// This file exists only under the `verif` build tag. It exports the unexported
+// pure helpers of the deployment procedure so that an external harness can
+// drive them directly. It adds no behaviour and changes no existing line.
+
+// VerifDivideFundsEvenly exposes divideFundsEvenly.
+func VerifDivideFundsEvenly(fullAmount uint64, n int, f func(ind int, amount uint64)) {
+	divideFundsEvenly(fullAmount, n, f)
+}
+
+// VerifNeoFSRuntimeTransactionModifier exposes neoFSRuntimeTransactionModifier.
+func VerifNeoFSRuntimeTransactionModifier(getBlockchainHeight func() uint32) actor.TransactionCheckerModifier {
+	return neoFSRuntimeTransactionModifier(getBlockchainHeight)
+}
+
+// VerifSharedTxData mirrors sharedTransactionData.
+type VerifSharedTxData struct {
+	Sender          util.Uint160
+	ValidUntilBlock uint32
+	Nonce           uint32
+}
+
+func (x VerifSharedTxData) inner() sharedTransactionData {
+	return sharedTransactionData{sender: x.Sender, validUntilBlock: x.ValidUntilBlock, nonce: x.Nonce}
+}
+
+// Bytes exposes sharedTransactionData.bytes.
+func (x VerifSharedTxData) Bytes() []byte { return x.inner().bytes() }
+
+// EncodeToString exposes sharedTransactionData.encodeToString.
+func (x VerifSharedTxData) EncodeToString() string { return x.inner().encodeToString() }
+
+// VerifDecodeSharedTxData exposes sharedTransactionData.decodeString.
+func VerifDecodeSharedTxData(s string) (VerifSharedTxData, error) {
+	var d sharedTransactionData
+	err := d.decodeString(s)
+	return VerifSharedTxData{Sender: d.sender, ValidUntilBlock: d.validUntilBlock, Nonce: d.nonce}, err
+}
+
+// UnshiftChecksum exposes sharedTransactionData.unshiftChecksum.
+func (x VerifSharedTxData) UnshiftChecksum(data []byte) []byte { return x.inner().unshiftChecksum(data) }
+
+// ShiftChecksum exposes sharedTransactionData.shiftChecksum.
+func (x VerifSharedTxData) ShiftChecksum(data []byte) (bool, []byte) { return x.inner().shiftChecksum(data) }
